@@ -46,6 +46,7 @@ def configs(tier):
         out.append(dict(key=f"sampler-{smp},unlabelled-reference", kind="sampler", sampler=smp, unlabelled=True, cost=300, split=8))
     for flag in ("none", "cat_shuffle", "false_neg"):
         out.append(dict(key=f"cst,{flag}", kind="cst", flag=flag, cost=100))
+    out.append(dict(key="cst,none,include_ref", kind="cst", flag="none", include_ref=True, cost=100))
     out.append(dict(key="copy-merge-getitem,independence", kind="derive", cost=50))
     return out
 
@@ -320,7 +321,7 @@ def harness(cfg, ns):
         gen = tool.corpus_from_reference(2)
         o.append(Obl("corpus_from_reference: reference unchanged", snap_eq(s0, snap(ref)), rz))
         flag = cfg["flag"]
-        corpus = tool.corpus_shuffle(["g0"], **({flag: True} if flag != "none" else {}))
+        corpus = tool.corpus_shuffle(["g0"], include_ref=bool(cfg.get("include_ref")), **({flag: True} if flag != "none" else {}))
         o.append(Obl("corpus_shuffle: reference unchanged", snap_eq(s0, snap(ref)), rz))
         gen_before = snap(gen)
         o += mutate_and_compare(ns, ctx, corpus, ref, "generated corpus vs reference", rz)
@@ -341,8 +342,17 @@ def harness(cfg, ns):
         nothing, only_ann = co.Continuum(), co.Continuum()
         only_ann.add_annotator("yy_declared_only")
         mg_n, pl_n, mg_a, pl_a = c.merge(nothing), c + nothing, c.merge(only_ann), c + only_ann
+        # an operand whose annotator the receiver does not have yet (in place and not): the merged continuum and the operand share nothing
+        newcomer = co.Continuum()
+        newcomer.add("zz_newcomer", Segment(core.const(300), core.const(305)), "q")
+        mg_new = c.merge(newcomer)
+        recv = c.copy()
+        recv.merge(newcomer, in_place=True)
         got = c[ANN[0]]
         o = [Obl("copy/merge/+/copy_flush/[]: source unchanged", snap_eq(s0, snap(c)), rz)]
+        for nm, d in (("merge(operand with a new annotator)", mg_new), ("merge(in place, operand with a new annotator)", recv)):
+            o += mutate_and_compare(ns, ctx, d, newcomer, f"{nm} vs operand", rz)
+            o += mutate_and_compare(ns, ctx, newcomer, d, f"operand vs {nm}", rz)
         for nm, d in (("merge(empty operand)", mg_n), ("+(empty operand)", pl_n), ("merge(operand with an annotator only)", mg_a), ("+(operand with an annotator only)", pl_a)):
             o.append(Obl(f"{nm}: a new object", d is not c, rz))
             o += mutate_and_compare(ns, ctx, d, c, f"{nm} vs source", rz)
@@ -465,7 +475,7 @@ def replay(case):
                 bad.append(f"CorpusShufflingTool() modified the reference: categories {list(c.categories)}")
             gen = tool.corpus_from_reference(2)
             flag = cfg["flag"]
-            corpus = tool.corpus_shuffle(["g0"], **({flag: True} if flag != "none" else {}))
+            corpus = tool.corpus_shuffle(["g0"], include_ref=bool(cfg.get("include_ref")), **({flag: True} if flag != "none" else {}))
             if S(c) != s0:
                 bad.append("corpus generation modified the reference")
             s1 = S(c)
@@ -498,6 +508,20 @@ def replay(case):
                 mutate(d)
                 if S(c) != s0:
                     bad.append(f"mutating the result of {nm} changed the source")
+            for in_place in (False, True):
+                newcomer = pa.Continuum()
+                newcomer.add("zz_newcomer", Segment(300.0, 305.0), "q")
+                recv = c.copy()
+                d = recv.merge(newcomer, in_place=in_place)
+                d = recv if in_place else d
+                b_op = S(newcomer)
+                mutate(d)
+                if S(newcomer) != b_op:
+                    bad.append(f"mutating the result of merge(in_place={in_place}) changed the merged-in operand (annotator new to the receiver)")
+                b_res = S(d)
+                mutate(newcomer)
+                if S(d) != b_res:
+                    bad.append(f"mutating the merged-in operand changed the result of merge(in_place={in_place})")
             got = c[list(c.annotators)[0]]
             got.clear()
             if S(c) != s0:
